@@ -59,10 +59,10 @@ def choose_hash(md5: bool, sha1: bool, sha256: bool, sha512: bool, o1: bool, o2:
         return r == {"SHA-256": "2"}
     if sha512:
         return r == {"SHA-512": "5"}
-    if o1:
-        return r == {others[0][0]: others[0][1]}
-    if o2:
-        return r == {others[1][0]: others[1][1]}
+    # none of the four: the first in key order, whatever order the dictionary is in ("equal contributing values give equal ids across dictionary orders")
+    if o1 or o2:
+        k = min(d)
+        return r == {k: d[k]}
     return r is None
 
 
@@ -178,7 +178,9 @@ CASES = [
     ("directory", {"path": ""}, {"path": ""}),
     ("directory", {"path": "C:\\a\"b\n\U0001F600", "path_enc": "x"}, {"path": "C:\\a\"b\n\U0001F600"}),
     ("file", {"name": "f", "size": 3, "hashes": {"SHA-512": "0" * 128, "SHA-1": "1" * 40, "SHA-256": "2" * 64}}, {"name": "f", "hashes": {"SHA-1": "1" * 40}}),
-    ("file", {"name": "f", "hashes": {"SSDEEP": "3:a:b", "SHA3-256": "2" * 64}}, {"name": "f", "hashes": {"SSDEEP": "3:a:b"}}),
+    # none of the four preferred algorithms: the choice cannot depend on the order of the dictionary, so "first" is the first in key order
+    ("file", {"name": "f", "hashes": {"SSDEEP": "3:a:b", "SHA3-256": "2" * 64}}, {"name": "f", "hashes": {"SHA3-256": "2" * 64}}),
+    ("file", {"hashes": {"TLSH": "0" * 70, "SHA3-512": "5" * 128, "SSDEEP": "3:a:b"}}, {"hashes": {"SHA3-512": "5" * 128}}),
     ("file", {"name": "f", "extensions": {"windows-pebinary-ext": {"pe_type": "exe", "sections": [{"name": "s", "entropy": 0.5}]}}},
      {"name": "f", "extensions": {"windows-pebinary-ext": {"pe_type": "exe", "sections": [{"name": "s", "entropy": 0.5}]}}}),
     # hash dictionaries NESTED in a contributing value are content like any other: only the top-level hashes property is reduced to one hash
@@ -207,14 +209,22 @@ NCASE = len(CASES)
 
 def end_to_end(ci: int, how: int) -> bool:
     """
-    pre: 0 <= ci < NCASE and 0 <= how <= 6
+    pre: 0 <= ci < NCASE and 0 <= how <= 7
     post: _
     """
-    ci, how = pick(ci, NCASE), pick(how, 7)
+    ci, how = pick(ci, NCASE), pick(how, 8)
     with Native():
         ok = run_e2e_case(ci, how)
     V.reached()
     return ok
+
+
+def rev_dicts(v):
+    if isinstance(v, dict):
+        return {k: rev_dicts(x) for k, x in reversed(list(v.items()))}
+    if isinstance(v, list):
+        return [rev_dicts(x) for x in v]
+    return v
 
 
 def run_e2e_case(ci, how):
@@ -226,6 +236,8 @@ def run_e2e_case(ci, how):
         o = cls(**dict(reversed(list(kw.items()))))           # argument order
     elif how == 2:
         o = stix2.parse(dict(kw, type=name), version="2.1")   # via parse
+    elif how == 7:
+        o = cls(**rev_dicts(kw))                              # every dictionary, at every depth, in the opposite order
     elif how == 6:
         o = cls(id=None, **kw)                                # None means "not given", as for every other property
     elif how == 4:
